@@ -21,7 +21,8 @@ META = dict(
          "inject Valve: <toggled>, inject <failing line>, tick, 3 ticks} is executed on methods with a plain wait, a timed Pause, a method Pause "
          "after an output command and a failing line (error pause).  Whenever the paused flag goes True -> False while the "
          "run continues, every output tag and the hardware memory after that tick's write must equal the values at the end "
-         "of the tick before the paused period began.",
+         "of the tick before the paused period began; while the run is not paused no output may change to the value of an "
+         "already undone pause without a command writing it (an Unpause that undoes nothing restores nothing).",
     note="Requests rejected by the engine's own validation are no-ops and prune the subtree (the sequence without them is "
          "enumerated).  A register commanded by a UOD command in the very tick the pause begins or ends is skipped "
          "(the statement does not order events inside one tick).  Two Pause requests executed in one tick: both readings "
@@ -40,6 +41,7 @@ METHODS = [
     "Set1: 5\nPause: 0.2s\nWait: 100s",
     "Mark: a\nBogus",
     "Set1: 5\nPause\nWait: 100s",
+    "Set1: 5\nPause: 0.6s\nWait: 100s",          # a timed Pause long enough to be un-paused by the user before it expires
 ]
 # seed histories (abstract events): what happened before the enumerated suffix
 SEEDS = [
@@ -55,6 +57,8 @@ SEEDS = [
      ("tick", 3)],
     # run 1 running with driven outputs
     [("user", "Start"), ("set1",), ("valve",), ("tick", 3), ("tick", 2)],
+    # method 4 only: the method's timed Pause has just begun (it expires six ticks later)
+    [("user", "Start"), ("tick", 3), ("tick", 3), ("tick", 1)],
 ]
 
 
@@ -96,6 +100,7 @@ class Monitor:
         self.seen_run = {}         # register -> values it held at a tick end of the current run
         self.run_no = 0
         self.rid = None
+        self.prev_rid = None
         self.pending = []
         self.safe = {}
         self.checked = 0
@@ -186,6 +191,16 @@ class Monitor:
             else:
                 self.history.append((self.pause["run_no"], [self.shadow] + self.alt, "run-ended"))
                 self.shadow = None
+        if not was_paused and not post["paused"] and pre["started"] and post["started"] and not pre["paused"] and rid == self.prev_rid:
+            # frame condition: an Unpause that undoes nothing (not paused) must not touch the outputs
+            for r in OUTS:
+                if r in writers or out[r] == self.prev_out[r]:
+                    continue
+                stale = any(sh[r] == out[r] for (_, readings, _) in self.history for sh in readings)
+                if stale:
+                    probs.append((f"C09:stale-prev-state:applied-while-not-paused:{r}",
+                                  f"tick {ob['n']}: the run is not paused and no command wrote {r}, but the tag changed from "
+                                  f"{self.prev_out[r]!r} to {out[r]!r}, the value from before an already undone pause"))
         if self.shadow is None and post["paused"] and post["started"]:
             n_pause = sum(1 for r in self.pending if r["kind"] == "user" and r["name"] == "Pause")
             if any(t == ob["n"] for (t, _, _) in run.error_events):
@@ -204,6 +219,7 @@ class Monitor:
                 self.alt.append({r: self.safe.get(r, self.prev_out[r]) for r in OUTS})
                 self.double += 1
         self.prev_out = dict(out)
+        self.prev_rid = rid
         for r in OUTS:
             self.seen_run.setdefault(r, set()).add(out[r])
         self.pending = []
@@ -307,7 +323,9 @@ def explore(item):
 
 DEEPER = [(0, 0), (3, 0)]          # (method, seed) explored one level deeper in the thorough tier
 # quick tier: every seed on the plain method, the other methods on the fresh engine and on the seeds they add something to
-QUICK_COMBOS = [(0, 0), (0, 1), (0, 2), (0, 3), (0, 4), (1, 0), (1, 4), (2, 0), (2, 2), (2, 3), (3, 0), (3, 4)]
+QUICK_COMBOS = [(0, 0), (0, 1), (0, 2), (0, 3), (0, 4), (1, 0), (1, 4), (2, 0), (2, 2), (2, 3), (3, 0), (3, 4), (4, 5)]
+ONLY_WITH = {5: (4,), }            # seed -> methods it makes sense for
+
 
 
 def run(ctx):
@@ -318,6 +336,8 @@ def run(ctx):
     for mi in range(len(METHODS)):
         for wi in range(len(SEEDS)):
             if ctx.quick and (mi, wi) not in QUICK_COMBOS:
+                continue
+            if wi in ONLY_WITH and mi not in ONLY_WITH[wi]:
                 continue
             d = depth + 1 if (not ctx.quick and (mi, wi) in DEEPER) else depth
             depths[f"{mi},{wi}"] = d
